@@ -348,6 +348,10 @@ func positive(s sink.Sink, em *childrun.Emitter, rng *rand.Rand, sample bool) {
 		shareQ2[rng.Intn(32)] ^= 1 << uint(rng.Intn(8))
 		changeProposer := rng.Intn(2) == 0
 		worldSeed, nAssets, noise := rng.Int63(), 1+rng.Intn(3), rng.Intn(5)
+		flavour := []string{"ledger", "sub", "virtual"}[rng.Intn(3)]
+		var fixedP, fixedQ client.NonceShare // shares of the parents' openings: the same in both rounds
+		rng.Read(fixedP[:])
+		rng.Read(fixedQ[:])
 		var ids []channel.ID
 		var props []client.ChannelProposal
 		for round := 0; round < 2; round++ {
@@ -361,14 +365,71 @@ func positive(s sink.Sink, em *childrun.Emitter, rng *rand.Rand, sample bool) {
 			}
 			w2 := party.NewWorld(rand.New(rand.NewSource(worldSeed)), nAssets, noise)
 			A2, B2 := w2.NewParty("A", 100000), w2.NewParty("B", 100000)
+			r2 := rand.New(rand.NewSource(42)) // identical proposals apart from the nonce share
+			var prop client.ChannelProposal
+			fail := func(err error) {
+				w2.Close()
+				s.Inconclusive(flavour + " opening failed: " + err.Error())
+			}
+			switch flavour {
+			case "ledger":
+				prop = ledgerProposal(r2, w2, A2, B2, false, client.WithNonce(sp))
+			case "sub":
+				B2.SetAcceptNonce(&fixedQ)
+				parent, err := propose(A2, ledgerProposal(r2, w2, A2, B2, true, client.WithNonce(fixedP)))
+				if err != nil {
+					fail(err)
+					return
+				}
+				B2.AwaitChannel(parent.ID())
+				alloc := channel.NewAllocation(2, backends(nAssets), append([]channel.Asset(nil), w2.Assets...)...)
+				cur := parent.State()
+				for a := range alloc.Balances {
+					for i := range alloc.Balances[a] {
+						alloc.Balances[a][i] = big.NewInt(r2.Int63n(cur.Balances[a][i].Int64() + 1))
+					}
+				}
+				prop, err = client.NewSubChannelProposal(parent.ID(), uint64(1+r2.Intn(100)), alloc, client.WithNonce(sp))
+				if err != nil {
+					panic(err)
+				}
+			case "virtual":
+				I2 := w2.NewParty("I", 100000)
+				A2.SetAcceptNonce(&fixedQ)
+				I2.SetAcceptNonce(&fixedQ)
+				chA, err := propose(A2, ledgerProposal(r2, w2, A2, I2, true, client.WithNonce(fixedP)))
+				if err != nil {
+					fail(err)
+					return
+				}
+				chB, err := propose(B2, ledgerProposal(r2, w2, B2, I2, true, client.WithNonce(fixedP)))
+				if err != nil {
+					fail(err)
+					return
+				}
+				if I2.AwaitChannel(chA.ID()) == nil || I2.AwaitChannel(chB.ID()) == nil {
+					fail(fmt.Errorf("hub did not register the parents"))
+					return
+				}
+				alloc := channel.NewAllocation(2, backends(nAssets), append([]channel.Asset(nil), w2.Assets...)...)
+				sa, sb := chA.State(), chB.State()
+				for a := range alloc.Balances {
+					ma := min64(sa.Balances[a][0].Int64(), sb.Balances[a][1].Int64())
+					mb := min64(sb.Balances[a][0].Int64(), sa.Balances[a][1].Int64())
+					alloc.Balances[a][0] = big.NewInt(r2.Int63n(ma + 1))
+					alloc.Balances[a][1] = big.NewInt(r2.Int63n(mb + 1))
+				}
+				prop, err = client.NewVirtualChannelProposal(uint64(1+r2.Intn(100)), A2.WAddr, alloc,
+					[]map[wallet.BackendID]wire.Address{A2.Wire, B2.Wire}, []channel.ID{chA.ID(), chB.ID()}, [][]channel.Index{{0, 1}, {1, 0}}, client.WithNonce(sp))
+				if err != nil {
+					panic(err)
+				}
+			}
 			// the responder's share is chosen by the harness through its accept message
 			B2.SetAcceptNonce(&sq)
-			r2 := rand.New(rand.NewSource(42)) // identical proposals apart from the nonce share
-			prop := ledgerProposal(r2, w2, A2, B2, false, client.WithNonce(sp))
 			ch, err := propose(A2, prop)
 			if err != nil {
-				w2.Close()
-				s.Inconclusive("ledger opening failed: " + err.Error())
+				fail(err)
 				return
 			}
 			B2.AwaitChannel(ch.ID())
@@ -376,6 +437,7 @@ func positive(s sink.Sink, em *childrun.Emitter, rng *rand.Rand, sample bool) {
 			props = append(props, prop)
 			w2.Close()
 		}
+		kind = "nonce-differential/" + flavour
 		var pr []string
 		if ids[0] == ids[1] {
 			pr = append(pr, fmt.Sprintf("changing only the %s nonce share left the channel ID unchanged", map[bool]string{true: "proposer's", false: "responder's"}[changeProposer]))
